@@ -6,6 +6,7 @@ package verifsim
 // and writes one JSON result file.
 
 import (
+	"sync"
 	"encoding/json"
 	"fmt"
 	"os"
@@ -204,6 +205,9 @@ func Watch(s *Sched) { watched.Store(s) }
 // WorkerMain runs the harness as directed by the environment. It returns the
 // process exit code (0 ok, 2 infrastructure trouble).
 func WorkerMain(h Harness, e WorkerEnv) int {
+	// sync.Pool hands out items in an order that depends on the P a goroutine runs on
+	// and on GC timing; the patched std makes every pool a LIFO free list here
+	sync.VerifDeterministic.Store(true)
 	StartWatchdog(60 * time.Second)
 	start := time.Now()
 	out := &WorkerResult{Property: e.Prop, Worker: e.Worker, Counters: map[string]int64{}}
